@@ -288,6 +288,9 @@ pub fn run(ctx: &Ctx, st: &mut Stats) {
     }
     // month / year ends when the date enumeration above is strided (otherwise they are already covered)
     ctx.par(st, "(a) Date: month ends and range ends x date-token spellings", true, 1, if stride == 1 { 1 } else { 10_000 }, |st, y, _| {
+        if ctx.tier == Tier::San && y % 499 != 1 {
+            return;
+        }
         for m in 1..=12u32 {
             for d in [1, crate::cal::dim(y, m)] {
                 let n = crate::cal::days_from_civil(y, m as i64, d as i64);
@@ -359,7 +362,7 @@ pub fn run(ctx: &Ctx, st: &mut Stats) {
         p *= 10;
     }
     years.extend([177_999_999, 178_000_000, 123_456_789]);
-    let years: Vec<u32> = if ctx.tier == Tier::San { years.into_iter().step_by(97).collect() } else { years };
+    let years: Vec<u32> = if ctx.tier == Tier::San { years.into_iter().step_by(401).collect() } else { years };
     for &y in &years {
         for m in [0u32, 1, 9, 10, 11] {
             if y == 178_000_000 && m != 0 {
@@ -384,6 +387,7 @@ pub fn run(ctx: &Ctx, st: &mut Stats) {
     dvals.extend([31, 32, 99_999_999, 100_000_000, 12_345_678]);
     dvals.sort();
     dvals.dedup();
+    let dvals: Vec<u32> = if ctx.tier == Tier::San { dvals.into_iter().step_by(5).collect() } else { dvals };
     for &d in &dvals {
         for (h, mi, s, us) in [(0u32, 0u32, 0u32, 0u32), (23, 59, 59, 999_999), (12, 0, 0, 1), (1, 2, 3, 450_000)] {
             if d >= 100_000_000 && (h, mi, s, us) != (0, 0, 0, 0) {
